@@ -90,6 +90,8 @@ def signature(rec, clause):
 
 def collect(run, results, mine, w_args, menu_fn, ignore=()):
     """Fold explore_steps() output into a report.Run.  mine: set of clause names that belong to this property."""
+    from engine import battery
+    battery.validate(run)
     for recs, st, nmenu in results:
         run.add_stats(st)
         for r in recs:
